@@ -227,6 +227,8 @@ def classify_use(typer, e):
         if _order_free_body(p.body):
             return "ok", "for-loop with order-free body"
         return "report", "for-loop over a set runs in hash order"
+    if isinstance(p, ast.Assign) and any(isinstance(t, ast.Subscript) and isinstance(t.slice, ast.Slice) for t in p.targets):
+        return "report", "slice assignment from a set fills the list in hash order"
     if isinstance(p, (ast.Assign, ast.AnnAssign, ast.AugAssign, ast.NamedExpr, ast.Return)):
         return "ok", "propagated by typing"
     if isinstance(p, ast.BoolOp) or (isinstance(p, ast.UnaryOp) and isinstance(p.op, ast.Not)):
